@@ -8,6 +8,7 @@ from mirq.expand import Expander
 from rules.c14 import field_index
 from rules.c10 import fold
 from rules.c03 import sites
+from mirq.paths import Paths, Unsupported, check_guarded, show_fact, show_eff, NONE, UNIT, passes_result
 
 IR = "embedded_graphics::image::image_raw::ImageRaw"
 SI = "embedded_graphics::image::sub_image::SubImage"
@@ -33,12 +34,19 @@ def run(ctx, rep):
 
 
 def sub_image(prog, rep):
+    P_ = Paths(prog, inline=lambda g: prog.is_new(g) or (g.name == "new_unchecked" and "sub_image::SubImage" in g.path))
     n = prog.method1(SI, "new", None)
-    ro = strip_refs(Origins(n).return_origin())
     bbp = ("call", "*::bounding_box", "_", (P(1, "parent"),))
-    m = match(ro, ("agg", "*SubImage::SubImage", (P(1, "parent"), "?area")))
-    ok = m is not None and (match(m["?area"], ("call", "*Rectangle::intersection", "_", (bbp, P(2, "area")))) is not None or match(m["?area"], ("call", "*Rectangle::intersection", "_", (P(2, "area"), bbp))) is not None)
-    rep.check(ok, "R09.1", "SubImage::new", "the area of a sub image must be parent.bounding_box().intersection(area); found %s" % show(ro, maxd=5), at=n.span, fn=n.path)
+    inter = {("call", "*Rectangle::intersection", "_", (bbp, P(2, "area"))), ("call", "*Rectangle::intersection", "_", (P(2, "area"), bbp))}
+    try:
+        summs = P_.of(n)
+        ok = bool(summs)
+        for sm in summs:
+            m = match(sm.ret, ("agg", "*SubImage::SubImage", (P(1, "parent"), "?area")))
+            ok = ok and not sm.effects and m is not None and match(m["?area"], inter) is not None
+        rep.check(ok, "R09.1", "SubImage::new", "the area of a sub image must be parent.bounding_box().intersection(area) on every path; found %s" % [show(sm.ret, maxd=5) for sm in summs][:2], at=n.span, fn=n.path)
+    except Unsupported as e:
+        rep.fail("R09.1", "SubImage::new", "cannot summarise SubImage::new: %s" % e, status="undecided", at=n.span, fn=n.path)
     # writers of SubImage.area
     ws = set()
     for f in prog.fns.values():
@@ -48,7 +56,7 @@ def sub_image(prog, rep):
             for s in b["s"]:
                 if s["k"] == "assign" and s["rv"]["k"] == "agg" and s["rv"].get("adt") == SI:
                     ws.add(f.path.split("::")[-1])
-    rep.check(ws <= {"new", "new_unchecked", "clone"} and "new" in ws, "R09.1", "SubImage:constructors", "SubImage may only be built by new / new_unchecked; built in %s" % sorted(ws))
+    rep.check(ws <= {"new", "new_unchecked", "clone"} and ws & {"new", "new_unchecked"}, "R09.1", "SubImage:constructors", "SubImage may only be built by new / new_unchecked; built in %s" % sorted(ws))
     callers = set()
     for f in prog.fns.values():
         if not f.body:
@@ -56,29 +64,41 @@ def sub_image(prog, rep):
         for b in f.body["blocks"]:
             t = b["t"]
             if t and t["k"] == "call" and t["f"].get("name") == "new_unchecked" and "SubImage" in t["f"].get("path", ""):
-                callers.add(f.path)
-    rep.check(callers == {"embedded_graphics::mono_font::MonoFont::<'_>::glyph"}, "R09.1", "new_unchecked-callers", "SubImage::new_unchecked may only be called from MonoFont::glyph (whose cells are proved inside the atlas by R14.1/R14.5); callers: %s" % sorted(callers))
+                callers.add(f.root_fn().path)
+    # SubImage::new may build through new_unchecked: its area is the intersection (checked above)
+    allowed = {"embedded_graphics::mono_font::MonoFont::<'_>::glyph", n.path}
+    rep.check(callers <= allowed and "embedded_graphics::mono_font::MonoFont::<'_>::glyph" in callers, "R09.1", "new_unchecked-callers",
+              "SubImage::new_unchecked may only be called from MonoFont::glyph (whose cells are proved inside the atlas by R14.1/R14.5) and from SubImage::new with the intersected area; callers: %s" % sorted(callers))
     # sub_image() extension builds SubImage::new(self, area)
     ext = [f for f in prog.fns.values() if f.name == "sub_image" and f.body and f.kind == "assoc_fn"]
     for f in ext:
         ro = strip_refs(Origins(f).return_origin())
         ok = match(ro, ("call", "*SubImage::<'a, T>::new", "_", (P(1, "self"), P(2, "area")))) is not None
         rep.check(ok, "R09.1", "ImageDrawableExt::sub_image", "sub_image(area) must be SubImage::new(self, area); found %s" % show(ro), at=f.span, fn=f.path)
-    # draw / draw_sub_image forward on every path
+    # draw / draw_sub_image forward on every path and pass the parent's result on
     area = ("field", P(1, "self"), field_index(prog, SI, "area"))
     parent = ("field", P(1, "self"), field_index(prog, SI, "parent"))
-    d = prog.method1(SI, "draw", "embedded_graphics_core::image::ImageDrawable")
-    s = sites(d, "draw_sub_image")
-    paths = enum_paths(CFG(d.body), 0, None, 64)
-    ok = len(s) == 1 and s[0][1] == [parent, P(2, "target"), area] and len(paths) == 1
-    rep.check(ok, "R09.1", "SubImage::draw", "SubImage::draw must unconditionally be parent.draw_sub_image(target, &self.area); found %s on %d path(s)" % ([show(x) for x in s[0][1]] if s else "?", len(paths)), at=d.span, fn=d.path)
-    d = prog.method1(SI, "draw_sub_image", "embedded_graphics_core::image::ImageDrawable")
-    s = sites(d, "draw_sub_image")
-    paths = enum_paths(CFG(d.body), 0, None, 64)
-    ok = len(s) == 1 and len(paths) == 1 and s[0][1][0] == parent and s[0][1][1] == P(2, "target") and \
-        match(s[0][1][2], ("call", "*::translate", "_", (P(3, "area"), ("field", area, field_index(prog, RECT, "top_left"))))) is not None
-    rep.check(ok, "R09.1", "SubImage::draw_sub_image", "nested sub images must unconditionally forward area.translate(self.area.top_left) to the parent (nesting composes; the parent rejects what lies outside); found %s on %d path(s)"
-              % ([show(x, maxd=4) for x in s[0][1]] if s else "?", len(paths)), at=d.span, fn=d.path)
+    tr = {("call", "*::translate", "_", (P(3, "area"), ("field", area, field_index(prog, RECT, "top_left")))),
+          ("call", "*::translate", "_", (area, ("field", P(3, "area"), field_index(prog, RECT, "top_left"))))} if False else \
+        ("call", "*::translate", "_", (P(3, "area"), ("field", area, field_index(prog, RECT, "top_left"))))
+    for name, key, want_area, msg in (("draw", "SubImage::draw", area, "SubImage::draw must unconditionally be parent.draw_sub_image(target, &self.area)"),
+                                      ("draw_sub_image", "SubImage::draw_sub_image", tr, "nested sub images must unconditionally forward area.translate(self.area.top_left) to the parent (nesting composes; the parent rejects what lies outside)")):
+        d = prog.method1(SI, name, "embedded_graphics_core::image::ImageDrawable")
+        try:
+            summs = P_.of(d)
+        except Unsupported as e:
+            rep.fail("R09.1", key, "cannot summarise: %s" % e, status="undecided", at=d.span, fn=d.path)
+            continue
+        ok = bool(summs)
+        found = []
+        for sm in summs:
+            cs = [e[1] for e in sm.calls() if e[1][1].split("::")[-1] == "draw_sub_image"]
+            found.append("; ".join(show_eff(e) for e in sm.effects))
+            good = len(sm.effects) == 1 and len(cs) == 1 and cs[0][3][0] == parent and cs[0][3][1] == P(2, "target") and match(cs[0][3][2], want_area) is not None and passes_result(sm, cs[0])
+            # the only conditions allowed are on the outcome of the forwarded call
+            good = good and all(f[0] == "variant" and f[1][:4] == cs[0][:4] for f in sm.facts)
+            ok = ok and good
+        rep.check(ok, "R09.1", key, msg + "; found %s" % found[:2], at=d.span, fn=d.path)
     sz = prog.method1(SI, "size", "embedded_graphics_core::geometry::OriginDimensions")
     ro = strip_refs(Origins(sz).return_origin())
     rep.check(ro == ("field", area, field_index(prog, RECT, "size")), "R09.1", "SubImage::size", "SubImage::size must be self.area.size; found %s" % show(ro), at=sz.span, fn=sz.path)
@@ -149,75 +169,98 @@ def image_new(prog, rep):
 
 
 def pixel_and_draw(prog, rep):
+    """R09.3 on path summaries: the lookup / the draw happens exactly when the point / the area lies inside."""
+    P_ = Paths(prog)
     px = prog.method1(IR, "pixel", "embedded_graphics_core::image::GetPixel")
-    org = Origins(px)
     size = ("field", P(1, "self"), field_index(prog, IR, "size"))
     x, y = ("field", P(2, "p"), 0), ("field", P(2, "p"), 1)
-    s = sites(px, "nth", org)
-    ok = len(s) == 1
-    if ok:
-        bi = s[0][0]
-        gs = [(fold(strip_refs(d)), l) for d, l in dominating_guards(px, org, bi)]
-        need = {"x>=0": False, "y>=0": False, "x<w": False, "y<h": False}
-        for d, lit in gs:
-            tv = lit_truth(lit)
-            for ax, e, dim, k1, k2 in (("x", x, ("field", size, 0), "x>=0", "x<w"), ("y", y, ("field", size, 1), "y>=0", "y<h")):
-                if match(d, ("bin", "Lt", e, ("const", 0))) is not None and tv is False:
-                    need[k1] = True
-                if match(d, ("bin", "Ge", e, dim)) is not None and tv is False:
-                    need[k2] = True
-                if match(d, ("bin", "Lt", e, dim)) is not None and tv is True:
-                    need[k2] = True
-        ok = all(need.values())
-        rep.check(ok, "R09.3", "pixel:guards", "the data lookup in pixel() must be guarded by 0 <= x < width and 0 <= y < height (None exactly outside the bounding box); missing %s" % [k for k, v in need.items() if not v], at=px.span, fn=px.path)
-        idx = fold(s[0][1][1])
-        dwc = ("call", "*::data_width", "_", (P(1, "self"),))
-        ok = match(idx, ("bin", "Add", x, ("bin", "Mul", y, dwc))) is not None
-        rep.check(ok, "R09.3", "pixel:index", "pixel(p) must read item x + y * data_width(); reads %s" % show(idx), at=px.span, fn=px.path)
-        # the iterator is a fresh RawDataSlice over self.data
-        it = s[0][1][0]
-        ok = any(match(n, ("call", "*RawDataSlice::<'a, R, O>::new", "_", (("field", P(1, "self"), field_index(prog, IR, "data")),))) is not None for n in walk(it))
-        rep.check(ok, "R09.3", "pixel:source", "pixel() must index a fresh RawDataSlice over self.data", at=px.span, fn=px.path)
-    else:
-        rep.fail("R09.3", "pixel:guards", "pixel() no longer has a single nth() lookup", status="undecided", at=px.span, fn=px.path)
-    # None on the rejecting paths
-    for lits, ret, _ in decisions(px):
-        pass
+    w, h = ("field", size, 0), ("field", size, 1)
+    Z = ("const", 0)
+
+    def lookup(sm):
+        return [n for f in sm.facts if f[0] == "variant" for n in [f[1]] if n[0] == "call" and n[1].split("::")[-1] == "nth"] + \
+               [n for n in walk(sm.ret) if n[0] == "call" and n[1].split("::")[-1] == "nth"]
+    try:
+        summs = P_.of(px)
+    except Unsupported as e:
+        summs = None
+        rep.fail("R09.3", "pixel:guards", "cannot summarise pixel(): %s" % e, status="undecided", at=px.span, fn=px.path)
+    if summs is not None:
+        needs = {"x>=0": ("le", Z, x), "y>=0": ("le", Z, y), "x<w": ("lt", x, w), "y<h": ("lt", y, h)}
+        missing, unjust = check_guarded(summs, lambda sm: bool(lookup(sm)), needs)
+        rep.check(not missing, "R09.3", "pixel:guards", "the data lookup in pixel() must be guarded by 0 <= x < width and 0 <= y < height (None exactly outside the bounding box); missing %s" % missing, at=px.span, fn=px.path)
+        bad = ["a path returns without a lookup although %s" % ("; ".join(show_fact(f) for f in sm.facts) or "nothing was tested") for sm in unjust]
+        bad += ["a path without lookup returns %s" % show(sm.ret, maxd=3) for sm in summs if not lookup(sm) and sm.ret != NONE]
+        rep.check(not bad, "R09.3", "pixel:none-only-outside", "pixel() may return without a lookup only for points outside the image, and then None: " + "; ".join(bad[:2]), at=px.span, fn=px.path)
+        ls = list(dict.fromkeys(n[:4] for sm in summs for n in lookup(sm)))
+        if len(ls) != 1:
+            rep.fail("R09.3", "pixel:index", "pixel() no longer has a single nth() lookup (%d)" % len(ls), status="undecided", at=px.span, fn=px.path)
+        else:
+            L = ls[0]
+            idx = fold(L[3][1])
+            dwc = ("call", "*::data_width", "_", (P(1, "self"),))
+            ok = match(idx, ("bin", "Add", x, ("bin", "Mul", y, dwc))) is not None
+            rep.check(ok, "R09.3", "pixel:index", "pixel(p) must read item x + y * data_width(); reads %s" % show(idx), at=px.span, fn=px.path)
+            ok = any(match(n, ("call", "*RawDataSlice::<'a, R, O>::new", "_", (("field", P(1, "self"), field_index(prog, IR, "data")),))) is not None for n in walk(L[3][0]))
+            rep.check(ok, "R09.3", "pixel:source", "pixel() must index a fresh RawDataSlice over self.data", at=px.span, fn=px.path)
+            # the outcome of the lookup is passed on, converted to the colour
+            bad = []
+            for sm in summs:
+                for f in sm.facts:
+                    if f[0] == "variant" and f[1][:4] == L:
+                        if f[2] == ("None",) and sm.ret != NONE:
+                            bad.append("lookup failed but pixel() returns %s" % show(sm.ret, maxd=3))
+                        if f[2] == ("Some",):
+                            r = sm.ret
+                            good = r[0] == "agg" and r[1].endswith("Option::Some") and r[2][0][0] == "call" and r[2][0][1].endswith(("::from", "::into")) and len(r[2][0][3]) == 1 \
+                                and r[2][0][3][0][0] == "payload" and r[2][0][3][0][1][:4] == L
+                            if not good:
+                                bad.append("lookup succeeded but pixel() returns %s" % show(sm.ret, maxd=4))
+            rep.check(not bad, "R09.3", "pixel:result", "pixel() must return the looked-up raw value converted to the colour: " + "; ".join(bad[:2]), at=px.span, fn=px.path)
 
     dsi = prog.method1(IR, "draw_sub_image", "embedded_graphics_core::image::ImageDrawable")
-    org = Origins(dsi)
-    s = sites(dsi, "fill_contiguous", org)
     area = P(3, "area")
     tl = ("field", area, field_index(prog, RECT, "top_left"))
     asz = ("field", area, field_index(prog, RECT, "size"))
-    if len(s) != 1:
-        rep.fail("R09.3", "draw_sub_image", "exactly one fill_contiguous expected, found %d" % len(s), status="undecided", at=dsi.span, fn=dsi.path)
+    try:
+        summs = P_.of(dsi)
+    except Unsupported as e:
+        rep.fail("R09.3", "draw_sub_image", "cannot summarise draw_sub_image(): %s" % e, status="undecided", at=dsi.span, fn=dsi.path)
         return
-    bi, a, t = s[0]
-    gs = [(fold(strip_refs(d)), l) for d, l in dominating_guards(dsi, org, bi)]
-    need = {"nonzero": False, "x>=0": False, "y>=0": False, "x+w<=W": False, "y+h<=H": False}
-    for d, lit in gs:
-        tv = lit_truth(lit)
-        if match(d, ("call", "*Rectangle::is_zero_sized", "_", (area,))) is not None and tv is False:
-            need["nonzero"] = True
-        for e, k in ((("field", tl, 0), "x>=0"), (("field", tl, 1), "y>=0")):
-            if match(d, ("bin", "Lt", e, ("const", 0))) is not None and tv is False:
-                need[k] = True
-        for i, k in ((0, "x+w<=W"), (1, "y+h<=H")):
-            if match(d, ("bin", "Gt", ("bin", "Add", ("field", tl, i), ("field", asz, i)), ("field", size, i))) is not None and tv is False:
-                need[k] = True
-            if match(d, ("bin", "Le", ("bin", "Add", ("field", tl, i), ("field", asz, i)), ("field", size, i))) is not None and tv is True:
-                need[k] = True
-    rep.check(all(need.values()), "R09.3", "draw_sub_image:guards", "the sub-image draw must be rejected unless the area is non-empty and lies completely inside the image; missing guard(s) %s" % [k for k, v in need.items() if not v],
+    fills = lambda sm: [e[1] for e in sm.calls() if e[1][1].split("::")[-1] == "fill_contiguous"]
+    aw, ah = ("field", asz, 0), ("field", asz, 1)
+    zs = ("call", "embedded_graphics_core::primitives::rectangle::Rectangle::is_zero_sized", (), (area,))
+    needs = {"nonzero": ("alt", ("false", zs), ("all", ("ne", aw, Z), ("ne", ah, Z))),
+             "x>=0": ("le", Z, ("field", tl, 0)), "y>=0": ("le", Z, ("field", tl, 1)),
+             "x+w<=W": ("alt", ("le", ("bin", "Add", ("field", tl, 0), aw), w), ("le", ("bin", "Add", aw, ("field", tl, 0)), w)),
+             "y+h<=H": ("alt", ("le", ("bin", "Add", ("field", tl, 1), ah), h), ("le", ("bin", "Add", ah, ("field", tl, 1)), h))}
+    missing, unjust = check_guarded(summs, lambda sm: bool(sm.effects), needs)
+    rep.check(not missing, "R09.3", "draw_sub_image:guards", "the sub-image draw must be rejected unless the area is non-empty and lies completely inside the image; missing guard(s) %s" % missing,
               at=dsi.span, fn=dsi.path)
+    bad = ["nothing is drawn although %s" % ("; ".join(show_fact(f) for f in sm.facts) or "nothing was tested") for sm in unjust]
+    bad += ["a path that draws nothing returns %s" % show(sm.ret, maxd=3) for sm in summs if not sm.effects and sm.ret != ("agg", "core::result::Result::Ok", (UNIT,))]
+    rep.check(not bad, "R09.3", "draw_sub_image:draws-inside", "a sub image inside the image must be drawn (Ok(()) without drawing only for empty or overhanging areas): " + "; ".join(bad[:2]), at=dsi.span, fn=dsi.path)
+    acting = [sm for sm in summs if sm.effects]
     dwc = ("call", "*::data_width", "_", (P(1, "self"),))
-    ok = match(a[1], ("call", "*Rectangle::new", "_", (("call", "*Point::zero", "_", ()), asz))) is not None
-    m = match(fold(a[2]), ("call", "*ContiguousPixels::<'a, C, O>::new", "_", (P(1, "self"), asz, "?init", "?skip")))
-    ok = ok and m is not None
-    if ok:
-        ok = match(m["?init"], ("bin", "Add", ("bin", "Mul", ("field", tl, 1), dwc), ("field", tl, 0))) is not None and match(m["?skip"], ("bin", "Sub", dwc, ("field", asz, 0))) is not None
-    rep.check(ok, "R09.3", "draw_sub_image:stream", "the stream must be ContiguousPixels::new(self, area.size, y*data_width + x, data_width - area.width) on every path into Rectangle(zero, area.size); found %s"
-              % [show(fold(x), maxd=5) for x in a[1:]], at=dsi.span, fn=dsi.path)
+    ok = bool(acting)
+    shown = "?"
+    for sm in acting:
+        fc = fills(sm)
+        if len(sm.effects) != 1 or len(fc) != 1:
+            ok = False
+            shown = "; ".join(show_eff(e) for e in sm.effects)
+            continue
+        a = fc[0][3]
+        shown = [show(fold(v), maxd=5) for v in a[1:]]
+        good = a[0] == P(2, "target") and match(a[1], ("call", "*Rectangle::new", "_", (("call", "*Point::zero", "_", ()), asz))) is not None
+        m = match(fold(a[2]), ("call", "*ContiguousPixels::<'a, C, O>::new", "_", (P(1, "self"), asz, "?init", "?skip")))
+        good = good and m is not None
+        if good:
+            good = match(m["?init"], ("bin", "Add", ("bin", "Mul", ("field", tl, 1), dwc), ("field", tl, 0))) is not None and match(m["?skip"], ("bin", "Sub", dwc, ("field", asz, 0))) is not None
+        good = good and sm.ret[:4] == fc[0][:4]
+        ok = ok and good
+    rep.check(ok, "R09.3", "draw_sub_image:stream", "the stream must be ContiguousPixels::new(self, area.size, y*data_width + x, data_width - area.width) on every path into Rectangle(zero, area.size), and its result returned; found %s"
+              % shown, at=dsi.span, fn=dsi.path)
     d = prog.method1(IR, "draw", "embedded_graphics_core::image::ImageDrawable")
     s = sites(d, "fill_contiguous")
     if len(s) == 1:
@@ -227,79 +270,110 @@ def pixel_and_draw(prog, rep):
 
 
 def contiguous_count(prog, rep):
-    """R09.4 colour count of ContiguousPixels by a potential function.
+    """R09.4 colour count of ContiguousPixels by a potential function, on path summaries.
     Φ = remaining_x + remaining_y * width.  Every path of next() that pulls from the raw iterator lowers Φ
-    by exactly 1, the path that stops has Φ = 0, so the stream holds Φ(new) colours; required: width*height."""
+    by exactly 1 and returns the pulled colour, the path that stops has Φ = 0, so the stream holds Φ(new) colours;
+    required: width*height."""
     fidx = {f["name"]: i for i, f in enumerate(prog.adts[CP]["variants"][0]["fields"])}
     nx = prog.method1(CP, "next", "core::iter::traits::iterator::Iterator")
-    cfg = CFG(nx.body)
-    selff = lambda n: ("field", ("deref", P(1, "self")), fidx[n])
+    P_ = Paths(prog)
+    selff = lambda n: ("field", P(1, "self"), fidx[n])
     syms = {selff("remaining_x"): "rx", selff("remaining_y"): "ry", selff("width"): "W"}
+    Z = ("const", 0)
 
-    def leaf(t):
-        return syms.get(t)
+    def zero_syms(facts, table):
+        """symbols a path's facts force to 0 (unsigned counters: x <= 0, x == 0, !(0 < x))"""
+        out = {}
+        for f in facts:
+            f = tuple(fold(x) if isinstance(x, tuple) else x for x in f)
+            for tree, sname in table.items():
+                if f in (("eq", tree, Z), ("eq", Z, tree), ("le", tree, Z)):
+                    out[sname] = 0
+        return out
+
     phi = Poly.sym("rx") + Poly.sym("ry") * Poly.sym("W")
     ok = True
     why = []
     n_emit = n_stop = 0
-    for path in enum_paths(cfg, 0, None, 64):
-        po = Origins(nx, path=path)
-        last = len(path) - 1
-        pulls = [b for b in path if nx.body["blocks"][b]["t"] and nx.body["blocks"][b]["t"]["k"] == "call" and nx.body["blocks"][b]["t"]["f"].get("name") in ("next", "nth")
-                 and "image_raw" not in nx.body["blocks"][b]["t"]["f"].get("path", "")]
+    try:
+        summs = P_.of(nx)
+    except Unsupported as e:
+        summs = []
+        why.append("cannot summarise next(): %s" % e)
+        ok = False
+    for sm in summs:
+        pulls = [e[1] for e in sm.calls() if e[1][1].split("::")[-1] in ("next", "nth") and e[1][3] and e[1][3][0] == selff("iter")]
+        other = [e for e in sm.calls() if e[1] not in pulls]
+        after = {"rx": Poly.sym("rx"), "ry": Poly.sym("ry"), "W": Poly.sym("W")}
         try:
-            after = {s: tree_to_poly(fold(po._place(1, ("*", ("f", fidx[n])), last, po.end(last))), leaf) for n, s in (("remaining_x", "rx"), ("remaining_y", "ry"), ("width", "W"))}
+            for w in sm.writes():
+                lv = w[1]
+                if lv in syms:
+                    after[syms[lv]] = tree_to_poly(fold(w[2]), lambda t: syms.get(t))
+                elif lv[0] == "field" and lv[1] == P(1, "self"):
+                    pass  # another field of the iterator (not a counter)
+                else:
+                    raise NotPolynomial("write to %s" % show(lv, maxd=3))
         except NotPolynomial as e:
             ok = False
             why.append("counter update not polynomial: %s" % e)
             continue
-        # equalities from the path condition: !(rx > 0) => rx = 0 ; ry == 0 => ry = 0
-        eqs = {}
-        for d, lit in path_conditions(nx, path, po):
-            d = fold(d)
-            tv = lit_truth(lit)
-            for s_tree, s in syms.items():
-                if match(d, ("bin", "Gt", s_tree, ("const", 0))) is not None and tv is False:
-                    eqs[s] = 0
-                if match(d, ("bin", "Eq", s_tree, ("const", 0))) is not None and tv is True:
-                    eqs[s] = 0
-                if match(d, ("bin", "Ne", s_tree, ("const", 0))) is not None and tv is False:
-                    eqs[s] = 0
+        if other:
+            ok = False
+            why.append("unexpected effect %s" % show_eff(other[0]))
+        eqs = zero_syms(sm.facts, syms)
         before = phi
-        aft = phi
-        for s in ("rx", "ry", "W"):
-            aft = aft.subs(s, after[s]) if False else aft
-        # simultaneous substitution
         aft = Poly()
         for k, v in phi.t.items():
             term = Poly.const(v)
-            for s in k:
-                term = term * after[s]
+            for s_ in k:
+                term = term * after[s_]
             aft = aft + term
-        for s, val in eqs.items():
-            before = before.subs(s, Poly.const(val))
-            aft = aft.subs(s, Poly.const(val))
+        for s_, val in eqs.items():
+            before = before.subs(s_, Poly.const(val))
+            aft = aft.subs(s_, Poly.const(val))
         if pulls:
             n_emit += 1
             if len(pulls) != 1 or not (before - aft == Poly.const(1)):
                 ok = False
                 why.append("a path that pulls a colour changes the remaining count by %s instead of -1" % (aft - before))
+            # the pulled colour is what the path returns
+            L = pulls[0]
+            vs = [f[2] for f in sm.facts if f[0] == "variant" and f[1][:4] == L[:4]]
+            r = sm.ret
+            if vs == [("None",)]:
+                good = r == NONE
+            elif vs == [("Some",)]:
+                good = r[0] == "agg" and r[1].endswith("Option::Some") and r[2][0][0] == "call" and r[2][0][1].endswith(("::from", "::into")) and r[2][0][3][0][0] == "payload" and r[2][0][3][0][1][:4] == L[:4]
+            else:
+                good = r[0] == "call" and r[:4] == L[:4] or (r[0] == "comb" and r[2][:4] == L[:4])
+            if not good:
+                ok = False
+                why.append("a path that pulls a colour returns %s" % show(r, maxd=4))
         else:
             n_stop += 1
             if not before.is_zero():
                 ok = False
                 why.append("next() can stop while %s colours remain" % before)
+            if sm.ret != NONE or sm.effects:
+                ok = False
+                why.append("the stopping path returns %s / has effects" % show(sm.ret, maxd=3))
     rep.check(ok and n_emit >= 2 and n_stop >= 1, "R09.4", "ContiguousPixels::next:potential",
-              "remaining_x + remaining_y*width must be the number of colours still to come (each pulling path lowers it by 1, stop only at 0): %s" % "; ".join(why[:3]), at=nx.span, fn=nx.path, status="undecided")
+              "remaining_x + remaining_y*width must be the number of colours still to come (each pulling path lowers it by 1 and returns the pulled colour, stop only at 0): %s" % "; ".join(why[:3]), at=nx.span, fn=nx.path, status="undecided")
     # initial potential from new()
     nw = prog.method1(CP, "new", None)
     sz = P(2, "size")
     isyms = {("field", sz, 0): "w", ("field", sz, 1): "h"}
     bad = []
     n_paths = 0
-    for lits, ret, path in decisions(nw):
-        r = strip_refs(ret)
-        if r[0] != "agg":
+    try:
+        summs = P_.of(nw)
+    except Unsupported as e:
+        summs = []
+        bad.append("cannot summarise new(): %s" % e)
+    for sm in summs:
+        r = sm.ret
+        if r[0] != "agg" or not str(r[1]).endswith("ContiguousPixels"):
             bad.append("constructor does not return the struct aggregate")
             continue
         n_paths += 1
@@ -310,19 +384,10 @@ def contiguous_count(prog, rep):
             continue
         phi0 = init["remaining_x"] + init["remaining_y"] * init["width"]
         want = Poly.sym("w") * Poly.sym("h")
-        # path facts: width > 0 or width == 0
-        eq = {}
-        for d, lit in lits:
-            d = fold(strip_refs(d))
-            tv = lit_truth(lit)
-            for s_tree, s in isyms.items():
-                if match(d, ("bin", "Gt", s_tree, ("const", 0))) is not None and tv is False:
-                    eq[s] = 0
-                if match(d, ("bin", "Eq", s_tree, ("const", 0))) is not None and tv is True:
-                    eq[s] = 0
-        for s, v in eq.items():
-            phi0 = phi0.subs(s, Poly.const(v))
-            want = want.subs(s, Poly.const(v))
+        eq = zero_syms(sm.facts, isyms)
+        for s_, v in eq.items():
+            phi0 = phi0.subs(s_, Poly.const(v))
+            want = want.subs(s_, Poly.const(v))
         if not (phi0 == want):
             cond = " (width = 0)" if eq.get("w") == 0 else (" (height = 0)" if eq.get("h") == 0 else " (width > 0)")
             bad.append("the stream is initialised with %s colours%s, the area has %s" % (phi0, cond, want))
